@@ -87,7 +87,7 @@ def parts(ctx):
     return [
         Part('valid', run_valid, strategy=gen.frontend_cases(), n=ctx.n(1500, 40000),
              budget_s=ctx.n(100, 3000)),
-        Part('inject', run_inject, strategy=inject.injected(), n=ctx.n(4000, 150000),
+        Part('inject', run_inject, strategy=inject.injected(), n=ctx.n(9000, 150000),
              budget_s=ctx.n(120, 4000)),
     ]
 
